@@ -350,6 +350,11 @@ def run(ctx):
                 us = [rnd.randrange(-9 * 10 ** 15, 9 * 10 ** 15) for _ in range(n)]          # datetime64[ns] spans 1678..2262
             else:
                 us = [rnd.randrange(-6 * 10 ** 16, 25 * 10 ** 16) // per * per for _ in range(n)]
+            if rnd.random() < 0.3:
+                # the instants whose stored form is special: the TDMS epoch itself (seconds = 0, fractions = 0) and its neighbours, the unix epoch
+                sp = rnd.choice([EPOCH_UNIX_S * 10 ** 6, EPOCH_UNIX_S * 10 ** 6 + 1, EPOCH_UNIX_S * 10 ** 6 - 1, 0, -1, 1])
+                if sp % per == 0:
+                    us[0] = sp
             form = rnd.choice(["array", "array", "strided"])
             prop_form = "datetime64" if rnd.random() < 0.6 or not 0 < us[0] < 2 * 10 ** 17 else "datetime"
             counts["end_to_end"] += 1
